@@ -5,6 +5,13 @@
 # result line appended to /verif/tmp/seedres.txt ; confirmed seeds are stored under /verif/seeded/<seed-id>/
 set -u
 SRC="$1"; SID="$2"; PID="$3"; WK="$4"
+if [ -f /verif/seeded/$SID/meta.json ] && grep -q '"confirmed"' /verif/seeded/$SID/meta.json; then
+  # already confirmed earlier: only (re-)try the check
+  [ -d /tmp/lab/w$WK/verif ] || /verif/tools/lab.sh w$WK >/dev/null
+  RES=$(env -u CARGO_TARGET_DIR /verif/tools/lab.sh w$WK try "/verif/seeded/$SID/patch.diff" "$PID" | tr '\n' ' ' | sed 's/KNOWN-FINDING[^V\[]*//g' | cut -c1-400)
+  echo "$SID retry check: $RES" >> /verif/tmp/seedres.txt
+  exit 0
+fi
 W=/tmp/seedcheck/wt$WK; export CARGO_TARGET_DIR=/tmp/seedcheck/target$WK CARGO_NET_OFFLINE=true
 mkdir -p /tmp/seedcheck /verif/tmp
 if [ ! -d "$W" ]; then git -C /repo worktree add --detach "$W" HEAD >/dev/null 2>&1; fi
@@ -35,6 +42,6 @@ fi
 RES="not-tried"
 if [ $OK = yes ]; then
   [ -d /tmp/lab/w$WK/verif ] || /verif/tools/lab.sh w$WK >/dev/null
-  RES=$(/verif/tools/lab.sh w$WK try "$SRC/patch.diff" "$PID" | tr '\n' ' ' | sed 's/KNOWN-FINDING[^V\[]*//g' | cut -c1-400)
+  RES=$(env -u CARGO_TARGET_DIR /verif/tools/lab.sh w$WK try "$SRC/patch.diff" "$PID" | tr '\n' ' ' | sed 's/KNOWN-FINDING[^V\[]*//g' | cut -c1-400)
 fi
 echo "$SID confirmed=$OK clean=$CLEAN mut=$MUT suite=[$SUITE] check: $RES" >> /verif/tmp/seedres.txt
